@@ -53,7 +53,7 @@ def _tty(sc):
 
 def _key(direction, mode, sc, rc, last, field, pos, exp, got):
     """What identifies a deviation: the scenario and the first deviating item."""
-    return {"dir": direction, "mode": mode, "field": field, "pos": pos, "exp": exp, "got": got, "rc": rc, "last": last,
+    return {"dir": direction, "mode": mode, "field": field, "pos": pos, "fp": f"{field}@{pos}", "exp": exp, "got": got, "rc": rc, "last": last,
             "a0": sc.get("a0", ""), "opts": " ".join(sc.get("opts", [])), "sep": sc.get("sep", ""),
             "ops": "|".join(sc.get("ops", [])), "tty": _tty(sc), "ids": sc.get("ids", ""),
             "env": ";".join(f"{n}={v}" for n, v in sc.get("env", [])), "files": " ".join(sc.get("files", [])),
